@@ -9,7 +9,7 @@
     [periodDurOf pph] = 3600 / pph (integer division, as in the code).
     [periodTimeline j p] / [periodPTO j p] / [periodStartNr j p]: expanded SegmentTimeline,
     presentationTimeOffset and startNumber of the j-th AdaptationSet of period p. *)
-From Verif Require Import GoSem Timeline TimelineProofs Periods PeriodsProofs PeriodsSplit.
+From Verif Require Import GoSem Timeline TimelineProofs Periods PeriodsProofs PeriodsSplit PeriodsWiden.
 
 (** ** reduceS *)
 
@@ -146,19 +146,87 @@ Theorem C06_exactly_one : forall pph seg mode cont ast snr st now ases ps j a es
 Proof. exact splitPeriod_exactly_one. Qed.
 Print Assumptions C06_exactly_one.
 
-(** A listed segment that starts at or after the end of the last period is in no period. Such a
-    segment exists only with an availabilityTimeOffset of at least one segment duration
-    (ato_3, 2 s segments, periods_60, now = 59 s: the segment starting at 60 s is listed in single-period mode,
-    P1 does not exist yet and P0 ends at 60 s; the served MPDs show exactly this, finding
-    c06-ato-segment-beyond-last-period).  The hypothesis of [C06_partition_open] excludes it. *)
-Theorem C06_late_segment_refuted :
+(** The first argument of [splitPeriod] says whether the tree contains the repair "period range
+    covers listed segments" (the harness reads it from the source): [false] = the range is
+    [period of the window start, period of now], [true] = it is widened to the periods of the
+    first and the last listed segment of every SegmentTimeline.  The theorems above are about
+    [false] (and hold for [true] in $Number$ mode, where nothing is widened).
+
+    WITHOUT the repair: a listed segment that starts at or after the end of the last period
+    (availabilityTimeOffset of at least one segment duration) is in no period - ato_3, 2 s
+    segments, periods_60, now = 59 s: the segment starting at 60 s is listed in single-period
+    mode, P1 does not exist yet and P0 ends at 60 s (finding c06-ato-segment-beyond-last-period) ... *)
+Theorem C06_late_segment_before_fix :
   existsb (fun x => fst x =? 5400000) (expandP atoTL) = true /\
   splitPeriod false 60 2000 MTimelineTime false 0 0 0 59000
     [ {| a_image := false; a_ts := Some 90000; a_dur := None; a_startNr := None; a_tl := Some atoTL |} ] =
   Ok [ {| pd_nr := 0; pd_start := 0;
           pd_as := [ {| o_pto := 0; o_startNr := None; o_tl := Some [ {| p_t := Some 0; p_d := 180000; p_r := 29 |} ]; o_cont := false |} ] |} ].
 Proof. exact late_segment_witness. Qed.
-Print Assumptions C06_late_segment_refuted.
+Print Assumptions C06_late_segment_before_fix.
+
+(** ... and the newest ended segment, which the single-period timeline always lists, is in no
+    period when it starts before the period of the window start (the text of C06 exempts it; with
+    a time-shift buffer shorter than a segment nothing at all is listed: tsbd_1, 6 s segments,
+    periods_30, now = 121 s - finding c06-listed-segment-before-first-period). *)
+Theorem C06_early_segment_before_fix :
+  splitPeriod false 30 6000 MTimelineTime false 0 0 120000 121000 [earlyAS] =
+  Ok [ {| pd_nr := 1; pd_start := 120; pd_as := [ {| o_pto := 10800000; o_startNr := None; o_tl := Some []; o_cont := false |} ] |} ].
+Proof. exact early_segment_before_fix. Qed.
+Print Assumptions C06_early_segment_before_fix.
+
+(** WITH the repair both segments have their period ... *)
+Theorem C06_late_early_segment_after_fix :
+  splitPeriod true 60 2000 MTimelineTime false 0 0 0 59000
+    [ {| a_image := false; a_ts := Some 90000; a_dur := None; a_startNr := None; a_tl := Some atoTL |} ] =
+  Ok [ {| pd_nr := 0; pd_start := 0;
+          pd_as := [ {| o_pto := 0; o_startNr := None; o_tl := Some [ {| p_t := Some 0; p_d := 180000; p_r := 29 |} ]; o_cont := false |} ] |};
+       {| pd_nr := 1; pd_start := 60;
+          pd_as := [ {| o_pto := 5400000; o_startNr := None; o_tl := Some [ {| p_t := Some 5400000; p_d := 180000; p_r := 0 |} ]; o_cont := false |} ] |} ] /\
+  splitPeriod true 30 6000 MTimelineTime false 0 0 120000 121000 [earlyAS] =
+  Ok [ {| pd_nr := 0; pd_start := 0;
+          pd_as := [ {| o_pto := 0; o_startNr := None; o_tl := Some [ {| p_t := Some 10260000; p_d := 540000; p_r := 0 |} ]; o_cont := false |} ] |};
+       {| pd_nr := 1; pd_start := 120; pd_as := [ {| o_pto := 10800000; o_startNr := None; o_tl := Some []; o_cont := false |} ] |} ].
+Proof. exact (conj late_segment_after_fix early_segment_after_fix). Qed.
+Print Assumptions C06_late_early_segment_after_fix.
+
+(** ... and in general: with the repair the concatenation of the periods' expanded timelines is
+    the WHOLE single-period timeline of every AdaptationSet that carries a SegmentTimeline (first
+    <S> with t, repeat counts >= 0, gap-free, values in range) - no hypothesis about the
+    availabilityTimeOffset, the time-shift buffer or where the first and last segment start is
+    left; each period still holds exactly the segments that start inside it, with the same
+    presentationTimeOffset and startNumber statements.  [tlBound] only asks of every
+    AdaptationSet a sane timescale and times below 2^63 (no wrap in first/periodTicks). *)
+Theorem C06_partition_full : forall pph seg mode cont ast snr st now ases ps j a s0 rest t0 HI,
+  1 <= pph <= 3600 -> 0 < seg -> ast <= st <= now -> mode <> MNumber ->
+  splitPeriod true pph seg mode cont ast snr st now ases = Ok ps ->
+  nth_error ases j = Some a -> a_image a = false -> a_tl a = Some (s0 :: rest) -> p_t s0 = Some t0 ->
+  Forall (fun s => 0 <= p_r s < two32) (s0 :: rest) ->
+  let es := s0 :: rest in
+  let P := periodDurOf pph in
+  let k1 := (now - ast) / (P * 1000) in
+  let ts := tsOf a in
+  goodTL es (snrFor mode a) ts HI -> (k1 + 1) * P <= HI ->
+  Forall (tlBound P HI) ases ->
+  flat_map (periodTimeline j) ps = expandP es /\
+  Forall (fun p => periodTimeline j p = filter (inWin (pd_nr p * P * ts) ((pd_nr p + 1) * P * ts)) (expandP es) /\
+                   periodPTO j p = Some (pd_start p * ts) /\
+                   (mode = MTimelineNr ->
+                    periodStartNr j p =
+                    Some (if reaches (pd_nr p * P * ts) (expandP es)
+                          then startNrOf (a_startNr a) + countBefore (pd_nr p * P * ts) (expandP es)
+                          else startNrOf (a_startNr a)))) ps.
+Proof. exact splitPeriod_partition_full. Qed.
+Print Assumptions C06_partition_full.
+
+(** the widened range only grows and reaches the period of every first and last listed segment *)
+Theorem C06_widened_range : forall P ases k0 k1 ka kb,
+  widenRange P ases k0 k1 = Ok (ka, kb) ->
+  ka <= k0 /\ k1 <= kb /\
+  (forall a ss f l, In a ases -> a_tl a = Some ss -> firstLast ss = Some (f, l) ->
+     ka <= i64 (f / ptOf P a) /\ i64 (l / ptOf P a) <= kb).
+Proof. exact widenRange_covers. Qed.
+Print Assumptions C06_widened_range.
 
 (** ** $Number$ mode *)
 
@@ -275,3 +343,6 @@ Example C06_example :
                         o_tl := Some [ {| p_t := Some 5400000; p_d := 360000; p_r := 0 |};
                                        {| p_t := Some 5760000; p_d := 180000; p_r := 17 |} ]; o_cont := true |} ] |} ].
 Proof. split; [apply goodTLb_ok|]; vm_compute; reflexivity. Qed.
+
+Example C06_example_bound : tlBound 60 120 exAS.
+Proof. exact tlBound_example. Qed.
